@@ -34,7 +34,7 @@ type c20Line struct {
 // before the next line is read" check, never for comparing whole responses.
 var c20Known = map[string]string{
 	"print-num": "1\n", "print-str": "hi\n", "print-arith": "7\n", "expr-num": "5\n", "expr-arith": "3\n", "expr-str": "abc\n",
-	"expr-true": "true\n", "expr-nil": "nil\n", "rt-mid-line": "1\n", "rt-in-for": "0\n", "multi-var-print": "4\n", "multi-func": "16\n",
+	"expr-true": "true\n", "expr-nil": "nil\n", "rt-mid-line": "1\n", "rt-print-then-break": "31\n", "rt-print-then-continue": "32\n", "rt-print-then-return": "33\n", "rt-echo-then-break": "34\n", "rt-in-for": "0\n", "multi-var-print": "4\n", "multi-func": "16\n",
 	"multi-for": "0\n1\n", "rt-print-then-fail-in-func": "8\n", "long-print-ascii": c20Long(5000, "x") + "\n", "long-print-bangla": c20Long(1500, "\u0995") + "\n", "long-expr": "1401\n", "print-open-brace-string": "{\n", "print-open-paren-string": "([\n", "multi-brace-in-property": "{\n", "crlf-print": "42\n", "input-one": "p[hello]\n", "input-two": "abcd\n", "input-echo": "spaced out\n", "huge-print": c20Long(70000, "z") + "\n", "long-rt": c20Long(4090, "y") + "\n", "str-backslash": "a\\b\n",
 }
 
@@ -174,6 +174,11 @@ var c20Pool = []c20Line{
 	{"rt-in-func", "rt-nested", KwFun + " f() { nx; " + KwPrint + " 8; } f(); " + KwPrint + " 7;"},
 	{"rt-in-for", "rt-nested", KwFor + " (" + KwVar + " i = 0; i < 3; i = i + 1) { " + KwPrint + " i; nx; }"},
 	{"rt-mid-line", "rt-nested", KwPrint + " 1; nx; " + KwPrint + " 2;"},
+	// output, then a stray jump statement: what was printed belongs to THIS response
+	{"rt-print-then-break", "rt-nested", KwPrint + " 31; " + KwBreak + ";"},
+	{"rt-print-then-continue", "rt-nested", KwPrint + " 32; " + KwContinue + ";"},
+	{"rt-print-then-return", "rt-nested", KwPrint + " 33; " + KwReturn + " 1;"},
+	{"rt-echo-then-break", "rt-nested", "34; " + KwBreak + ";"},
 	{"rt-print-operand", "rt", KwPrint + " 1 + nil;"},
 }
 
